@@ -2,7 +2,7 @@
 
     PV:  None | True/False | {"i":n} | {"f":[m,e]} | {"s":str} | {"l":[..]} | {"t":[..]} | {"S":[..]} | {"q":[..]}
          | {"d":[[key,v]..]} | {"D":[cls,[[key,v]..]]} | {"st":v} | {"e":[cls,name]} | {"dt":iso}
-         | {"a":[uid,name,flow_uid|None,status,ctx,args,scope]} | {"p":1} | {"r":[pattern,flags]} | {"c":1} | {"o":cls}
+         | {"a":[uid,name,flow_uid|None,status,ctx,args,scope]} | {"p":1} | {"r":[pattern,flags]} | {"c":[op,value]} | {"o":cls}
     key: None | True/False | {"i":n} | {"s":str} | {"T":[atom..]}     atom: None | True/False | {"i":n} | {"s":str}
     case-only: {"share": k}  -> the k-th object of the case's pool (built once: object identity shared)
 
@@ -98,7 +98,9 @@ def build(j, pool=None):
     if "r" in j:
         return re.compile(j["r"][0], j["r"][1])
     if "c" in j:
-        return ev._less_than_operator(3)
+        mk = {"less_than": ev._less_than_operator, "equal_less_than": ev._equal_or_less_than_operator, "greater_than": ev._greater_than_operator,
+              "equal_greater_than": ev._equal_or_greater_than_operator, "not_equal_to": ev._not_equal_to_operator}
+        return mk[j["c"][0]](build(j["c"][1], pool))
     if "o" in j:
         return Unknown()
     raise ValueError(j)
@@ -156,7 +158,7 @@ def observe(o, budget=None):
     if isinstance(o, re.Pattern):
         return {"r": [o.pattern if isinstance(o.pattern, str) else repr(o.pattern), o.flags]}
     if isinstance(o, ev.ComparisonExpression):
-        return {"c": 1}
+        return {"c": [getattr(o, "name", None) or "?", observe(o.value, budget)]}
     return {"o": type(o).__name__}
 
 
@@ -189,32 +191,34 @@ def plain_json_to_model(x):
     return x
 
 
-REGISTERED = (dict, datetime, Enum, deque, tuple, set, re.Pattern)
+REGISTERED = (dict, datetime, Enum, deque, tuple, set, re.Pattern)  # + dataclasses, Action, ComparisonExpression
 
 
 def sharing_signature(o):
     """Sequence of first-visit numbers of the objects `encode_to_dict` registers in `refs`, in its
-    traversal order (lists and scalars are transparent).  Two graphs with equal unfoldings and equal
+    traversal order (every container incl. lists and the fields of an Action; scalars are transparent).  Two graphs with equal unfoldings and equal
     signatures have the same sharing structure."""
     colang_ast, ev, flows, ser = _mods()
     seen, out = {}, []
 
     def registered(x):
-        return isinstance(x, REGISTERED) or is_dataclass(x) or isinstance(x, flows.Action)
+        return isinstance(x, REGISTERED) or is_dataclass(x) or isinstance(x, (flows.Action, ev.ComparisonExpression))
 
     def walk(x):
-        if isinstance(x, list):
-            for y in x:
-                walk(y)
-            return
         if x is None or isinstance(x, (str, int, float, functools.partial)):
             return
-        if not registered(x):
+        if not (registered(x) or isinstance(x, list)):
             return
         if id(x) in seen:
             out.append(seen[id(x)])
             return
-        if isinstance(x, dict):
+        if isinstance(x, list):
+            for y in x:
+                walk(y)
+        elif isinstance(x, flows.Action):
+            for y in x.to_dict().values():
+                walk(y)
+        elif isinstance(x, dict):
             strk = all(isinstance(k, str) for k in x)
             for k, y in x.items():
                 if not strk:
@@ -367,3 +371,126 @@ def skeleton_diff(real, model, referenced=None, path="$"):
                     return d
             return None
     return None if real == model else f"{path}: impl {json.dumps(real)[:80]} model {json.dumps(model)[:80]}"
+
+
+# ------------------------------------------------------------------ concrete layer with refs (Models/SerializeShared.lean)
+
+def to_cv(o):
+    """object graph -> (CV JSON for Drive/C11 `shared`, {id(obj): lab id}); the traversal of the repaired encode_to_dict:
+    every container (lists included) has an identity, the kids are the values the encoder recurses into."""
+    colang_ast, ev, flows, ser = _mods()
+    ids = {}
+
+    def leaf(x):
+        if x is None or isinstance(x, bool):
+            return x
+        if isinstance(x, str):
+            return {"s": x}
+        if isinstance(x, int):
+            return {"i": x}
+        return {"f": list(dyadic(x))}
+
+    def walk(x):
+        if x is None or isinstance(x, (str, int, float)):
+            return leaf(x)
+        if isinstance(x, functools.partial):
+            return None
+        n = ids.setdefault(id(x), len(ids))
+        if isinstance(x, list):
+            return {"n": [n, ["list"], [walk(y) for y in x]]}
+        if isinstance(x, dict):
+            if all(isinstance(k, str) for k in x):
+                return {"n": [n, ["dictStr", list(x.keys())], [walk(y) for y in x.values()]]}
+            return {"n": [n, ["dictItems"], [walk(z) for k, y in x.items() for z in (k, y)]]}
+        if is_dataclass(x):
+            fs = list(x.__dataclass_fields__.keys())
+            return {"n": [n, ["data", type(x).__name__, fs], [walk(getattr(x, f)) for f in fs]]}
+        if isinstance(x, colang_ast.SpecType):
+            return {"n": [n, ["specType", x.value], []]}
+        if isinstance(x, flows.Action):
+            d = x.to_dict()
+            return {"n": [n, ["data", "Action", list(d.keys())], [walk(v) for v in d.values()]]}
+        if isinstance(x, datetime):
+            return {"n": [n, ["datetime", x.isoformat()], []]}
+        if isinstance(x, Enum):
+            return {"n": [n, ["enum", type(x).__name__, x.name], []]}
+        if isinstance(x, deque):
+            return {"n": [n, ["deque"], [walk(y) for y in x]]}
+        if isinstance(x, tuple):
+            return {"n": [n, ["tuple"], [walk(y) for y in x]]}
+        if isinstance(x, set):
+            return {"n": [n, ["set"], [walk(y) for y in x]]}
+        if isinstance(x, re.Pattern) and isinstance(x.pattern, str):
+            return {"n": [n, ["regex", x.pattern, x.flags], []]}
+        if isinstance(x, ev.ComparisonExpression) and getattr(x, "name", None):
+            return {"n": [n, ["cmp", x.name, leaf(x.value)], []]}
+        raise TypeError("outside the labelled universe")
+
+    return walk(o), ids
+
+
+def real_encoding_normal_form(d, ids, payload=False):
+    """encode_to_dict's output (Python structure) in the shape Drive/C11.jToJson prints, python ids -> lab ids,
+    `__ref_count` dropped.  `payload`: d is the field dict inside a dict/dataclass wrapper (user keys, not markers)."""
+    if isinstance(d, dict):
+        if payload:
+            return ["__obj", [[k, real_encoding_normal_form(v, ids)] for k, v in d.items()]]
+        out = []
+        for k, v in d.items():
+            if k == "__ref_count":
+                continue
+            if k == "__id":
+                out.append([k, ids.get(v, -1)])
+            elif k == "value" and isinstance(v, dict):
+                out.append([k, real_encoding_normal_form(v, ids, True)])
+            else:
+                out.append([k, real_encoding_normal_form(v, ids)])
+        return ["__obj", out]
+    if isinstance(d, list):
+        return [real_encoding_normal_form(v, ids) for v in d]
+    if isinstance(d, float):
+        return {"__f": list(dyadic(d))}
+    return d
+
+
+def _is_obj(x):
+    return isinstance(x, list) and len(x) == 2 and x[0] == "__obj" and isinstance(x[1], list)
+
+
+def model_encoding_normal_form(m):
+    """the model writes an `__id` on every definition and marks every list; the real encoder does so only for objects
+    that are referenced again: drop the ids nobody refers to"""
+    referenced = set()
+
+    def collect(x, payload=False):
+        if _is_obj(x):
+            kv = dict((k, v) for k, v in x[1])
+            if not payload and kv.get("__type") == "ref":
+                referenced.add(kv.get("__id"))
+            for k, v in x[1]:
+                collect(v, (not payload) and k == "value" and _is_obj(v))
+        elif isinstance(x, list):
+            for v in x:
+                collect(v)
+
+    def strip(x, payload=False):
+        if _is_obj(x):
+            if payload:
+                return ["__obj", [[k, strip(v)] for k, v in x[1]]]
+            kv = dict((k, v) for k, v in x[1])
+            fields = []
+            for k, v in x[1]:
+                if k == "__id" and kv.get("__type") != "ref" and v not in referenced:
+                    continue
+                fields.append([k, strip(v, k == "value" and _is_obj(v))])
+            return ["__obj", fields]
+        if isinstance(x, list):
+            if len(x) == 1 and _is_obj(x[0]):
+                kv = dict((k, v) for k, v in x[0][1])
+                if kv.get("__type") == "list" and "__id" in kv and kv.get("__id") not in referenced:
+                    return [strip(v) for v in kv["value"]]
+            return [strip(v) for v in x]
+        return x
+
+    collect(m)
+    return strip(m)
